@@ -64,6 +64,76 @@ def respell(rng, words):
     return s
 
 
+def ref_read(index, ws):
+    """independent reference (hashlib) of the converse clause for a token list `ws` read in ONE list (`index`: word -> position):
+    ("value", None, None) when the word count is illegal or a token is not in the list, ("checksum", None, None) when the trailing
+    bits are not the SHA-256 prefix of the leading bits, else ("ok", entropy bytes, integer value of entropy||checksum)."""
+    if len(ws) not in (12, 15, 18, 21, 24) or any(w not in index for w in ws):
+        return "value", None, None
+    v = 0
+    for w in ws:
+        v = (v << 11) | index[w]
+    cs = len(ws) * 11 // 33
+    ent = (v >> cs).to_bytes((len(ws) * 11 - cs) // 8, "big")
+    if hashlib.sha256(ent).digest()[0] >> (8 - cs) != v & ((1 << cs) - 1):
+        return "checksum", None, None
+    return "ok", ent, v
+
+
+def checksum_damage(rng, words, index, ent):
+    """sentences of a legal word count over one list that differ from the BIP-39 sentence of `ent` only in what the checksum is
+    there to catch: one checksum bit flipped, another checksum value, one entropy bit flipped, two words exchanged, the sentence
+    rotated.  [(kind, [words])]; whether each is acceptable is decided by the reference / the model, never assumed."""
+    ws = spec_encode(words, ent)
+    idx = [index[w] for w in ws]
+    cs = len(ent) // 4
+    n = len(ws)
+    out = []
+    i1 = list(idx); i1[-1] ^= 1 << rng.randrange(cs)
+    out.append(("checksum-bit", i1))
+    i2 = list(idx); i2[-1] = (i2[-1] & ~((1 << cs) - 1)) | ((i2[-1] + 1 + rng.randrange((1 << cs) - 1)) & ((1 << cs) - 1))
+    out.append(("checksum-value", i2))
+    b = cs + rng.randrange(len(ent) * 8)           # bit position counted from the end of entropy||checksum: an entropy bit
+    i3 = list(idx); i3[n - 1 - b // 11] ^= 1 << (b % 11)
+    out.append(("entropy-bit", i3))
+    a, c = rng.sample(range(n), 2)
+    i4 = list(idx); i4[a], i4[c] = i4[c], i4[a]
+    out.append(("swap", i4))
+    out.append(("rotate", idx[1:] + idx[:1]))
+    return [(k, [words[i] for i in ii]) for k, ii in out]
+
+
+def shared_sentences(rng, lists, n_words=12, both=True, budget=40000):
+    """for every ordered pair (A, B) of word lists that have words in common: a sentence that is valid in A (checksum computed with
+    hashlib over A's positions) made only of words B contains too, whose reading in B is NOT checksum-valid, and (both=True) one whose
+    reading in B is valid as well (another entropy: the positions differ).  The language argument alone decides what such a sentence
+    means.  [(A, B, [words], entropy in A, entropy in B or None)]"""
+    out = []
+    names = list(lists)
+    for A in names:
+        ia = {w: i for i, w in enumerate(lists[A])}
+        for B in names:
+            if A == B:
+                continue
+            ib = {w: i for i, w in enumerate(lists[B])}
+            common = [w for w in lists[A] if w in ib]
+            if len(common) < 16 or all(ia[w] == ib[w] for w in common):      # same words at the same positions: the same reading
+                continue
+            need = {False: 1, True: 1 if both else 0}
+            for _ in range(budget):
+                if not any(need.values()):
+                    break
+                ws = [rng.choice(common) for _ in range(n_words)]
+                ka, ea, _v = ref_read(ia, ws)
+                if ka != "ok":
+                    continue
+                kb, eb, _v = ref_read(ib, ws)
+                if need[kb == "ok"] and (kb != "ok" or eb != ea):
+                    need[kb == "ok"] -= 1
+                    out.append((A, B, ws, ea, eb))
+    return out
+
+
 def gen(rng, tier):
     lists = {l: words_of(l) for l in BIP39_LANGS}
     # boundary entropies
@@ -128,7 +198,9 @@ def gen(rng, tier):
             ws = ws[:rng.choice([0, 1, 11, 13, 23, 25])] if rng.random() < 0.5 else ws + ws
         else:
             ws = [rng.choice(words) for _ in range(rng.choice([12, 15, 18, 21, 24]))]
-        yield dec_case(rng.choice([lang, "auto", "ENGLISH"]), " ".join(ws), "neg-invalid")
+        l_ = rng.choice([lang, "auto", "ENGLISH"])
+        yield dec_case(l_, " ".join(ws), "neg-invalid")
+        yield dec_case(l_, " ".join(ws), "neg-invalid-ck", "ck")        # the second decoder entry point refuses the same sentences
     # word-count discipline at the bit level: a valid sentence with copies of the index-0 word (all-zero 11-bit groups) prepended or
     # appended, or with zero words inserted, has an illegal word count whatever its bits say
     for i in range(45 if tier == "quick" else 900):
@@ -139,17 +211,148 @@ def gen(rng, tier):
         z = words[0] if rng.random() < 0.8 else words[2047]
         v = i % 4
         ws2 = [z] * k + ws if v == 0 else ws + [z] * k if v == 1 else ws[:1] + [z] * k + ws[1:] if v == 2 else [z] * k + ws[:-k]
-        yield dec_case(rng.choice([lang, "auto"]), " ".join(ws2), "neg-zero-words" if v != 3 else "neg-invalid")
+        l_ = rng.choice([lang, "auto"])
+        yield dec_case(l_, " ".join(ws2), "neg-zero-words" if v != 3 else "neg-invalid")
+        yield dec_case(l_, " ".join(ws2), "neg-zero-words-ck" if v != 3 else "neg-invalid-ck", "ck")
     # self-consistent sentences of an illegal length: word counts that are multiples of 3 outside 12..24
     for i in range(27 if tier == "quick" else 300):
         lang = BIP39_LANGS[i % 9]
         nbytes = [4, 8, 12, 36, 40, 44, 48, 64][i % 8]
         ws = gen_encode(lists[lang], bytes(rng.randrange(256) for _ in range(nbytes)))
-        yield dec_case(rng.choice([lang, "auto"]), " ".join(ws), "neg-count-mult3")
+        l_ = rng.choice([lang, "auto"])
+        yield dec_case(l_, " ".join(ws), "neg-count-mult3")
+        yield dec_case(l_, " ".join(ws), "neg-count-mult3-ck", "ck")
     # known ambiguity witness (F-autodetect): French sentence made of words that are also English
     s = " ".join(spec_encode(lists["FRENCH"], bytes.fromhex(F_AUTODETECT)))
     yield dec_case("FRENCH", s, "dec-lang")
     yield dec_case("auto", s, "dec-auto")
+    # the checksum clause at BOTH decoder entry points (Decode and DecodeWithChecksum), language given and auto-detected: sentences of a
+    # legal word count over one list that differ from a valid sentence only in what the checksum is there to catch, every size and list
+    index = {l: {w: i for i, w in enumerate(lists[l])} for l in BIP39_LANGS}
+    for lang in BIP39_LANGS:
+        for sz in SIZES:
+            dmg = checksum_damage(rng, lists[lang], index[lang], bytes(rng.randrange(256) for _ in range(sz)))
+            for kind, ws in (dmg if tier == "thorough" else [dmg[0]] + rng.sample(dmg[1:], 2)):
+                s = " ".join(ws)
+                for l_ in (lang, "auto"):
+                    yield dec_case(l_, s, "neg-checksum-" + kind)
+                    yield dec_case(l_, s, "neg-checksum-" + kind + "-ck", "ck")
+    # the language argument decides the reading: sentences valid in one list made only of words another list contains too (at other
+    # positions), read with each of the two languages given and auto-detected, at both entry points
+    for n_words in ((12, 24) if tier == "quick" else (12, 15, 18, 21, 24)):
+        for A, B, ws, _ea, _eb in shared_sentences(rng, lists, n_words, both=(n_words == 12 or tier == "thorough")):
+            s = " ".join(ws)
+            for l_ in (A, B, "auto"):
+                yield dec_case(l_, s, "shared-words")
+                yield dec_case(l_, s, "shared-words-ck", "ck")
+
+
+def _observation_points(rng, tier, rep):
+    """the converse clause names ONE accept set for 'the decoder/validator': every observation point (Decode, DecodeWithChecksum, IsValid,
+    Validate; the sentence as str or as a Bip39Mnemonic object; language given or auto-detected) accepts a legal-count in-list sentence
+    iff its checksum bits are the SHA-256 prefix of its entropy bits (hashlib reference), returns that entropy (entropy||checksum for
+    DecodeWithChecksum) when it does, and refuses with the checksum error when it does not."""
+    from bip_utils import Bip39Mnemonic, MnemonicChecksumError
+    index = {l: {w: i for i, w in enumerate(words_of(l))} for l in BIP39_LANGS}
+    n = 0
+
+    def observe(f):
+        try:
+            return f()
+        except MnemonicChecksumError:
+            return "refused:checksum error"
+        except ValueError:
+            return "refused:value error"
+        except Exception as ex:  # noqa
+            return "refused:" + type(ex).__name__
+
+    for lang in BIP39_LANGS:
+        words = words_of(lang)
+        for sz in (SIZES if tier == "thorough" else rng.sample(SIZES, 2)):
+            ent = bytes(rng.randrange(256) for _ in range(sz))
+            for kind, ws in [("valid", spec_encode(words, ent))] + checksum_damage(rng, words, index[lang], ent):
+                kref, eref, vref = ref_read(index[lang], ws)
+                s = " ".join(ws)
+                cs = len(ws) * 11 // 33
+                readings = [ref_read(index[l], ws) for l in BIP39_LANGS]          # every list that contains all the words (auto-detection)
+                for form, arg in (("str", s), ("Bip39Mnemonic object", Bip39Mnemonic.FromString(s))):
+                    for lg_name, lg in ((lang, Bip39Languages[lang]), ("auto-detected", None)):
+                        d, v = Bip39MnemonicDecoder(lg), Bip39MnemonicValidator(lg)
+                        obs = [("Decode", observe(lambda: "accepted:" + d.Decode(arg).hex())),
+                               ("DecodeWithChecksum", observe(lambda: "accepted:%x" % int.from_bytes(d.DecodeWithChecksum(arg), "big"))),
+                               ("IsValid", "accepted" if observe(lambda: v.IsValid(arg)) is True else "refused"),
+                               ("Validate", observe(lambda: "accepted" if v.Validate(arg) is None else "accepted"))]
+                        n += len(obs)
+                        where = "%s sentence (%s, %d words), given as %s, language %s" % (lang, kind, len(ws), form, lg_name)
+                        if lg is not None:
+                            want = {"Decode": "accepted:" + eref.hex(), "DecodeWithChecksum": "accepted:%x" % vref, "IsValid": "accepted", "Validate": "accepted"} if kref == "ok" else \
+                                   {"Decode": "refused:checksum error", "DecodeWithChecksum": "refused:checksum error", "IsValid": "refused", "Validate": "refused:checksum error"}
+                            for pt, got in obs:
+                                if got != want[pt]:
+                                    rep("%s departs from the checksum clause (accepted iff the trailing bits are the SHA-256 prefix of the entropy bits; "
+                                        "wrong checksum -> checksum error): %s" % (pt, where), s, got, want[pt])
+                            continue
+                        # auto-detection: the four points have one accept set, and what is accepted is a checksum-valid reading in some list
+                        acc = [got.startswith("accepted") for _pt, got in obs]
+                        if len(set(acc)) != 1:
+                            rep("the decoder/validator observation points disagree on whether a sentence is accepted: " + where, s,
+                                " | ".join("%s: %s" % o for o in obs), "one accept set")
+                            continue
+                        if acc[0]:
+                            e_a, v_a = obs[0][1].split(":")[1], int(obs[1][1].split(":")[1], 16)
+                            if not any(k == "ok" and e.hex() == e_a and vv == v_a for k, e, vv in readings):
+                                rep("an auto-detecting decoder accepts a sentence with a result that is not a checksum-valid reading in any list: " + where, s,
+                                    "Decode %s, DecodeWithChecksum %x" % (e_a, v_a), "a checksum-valid reading, or refusal")
+                        elif kref == "ok" and sum(1 for k, _e, _v in readings if k != "value") == 1:
+                            rep("a valid sentence whose words belong to one list only is refused with the language auto-detected: " + where, s, obs[0][1], "accepted:" + eref.hex())
+    return n
+
+
+def _first_use(rng, tier, rep):
+    """decoding is a function of (language, sentence) also when it is the first thing several threads do with a word list at the same
+    moment (fresh interpreter; lists never loaded, loaded by an encoder, or loaded by a decoder constructor, but never searched)."""
+    from harness.props.mnemonic_common import first_use_concurrently, task
+    n = 0
+    lists = {l: words_of(l) for l in BIP39_LANGS}
+    for run in range(1 if tier == "quick" else 8):
+        order = list(BIP39_LANGS) if run % 2 == 0 else list(BIP39_LANGS)[::-1]
+        rounds, wants = [], []
+        for lang in order:
+            L = Bip39Languages[lang]
+            before = [[], [task("Bip39MnemonicEncoder", [L], "Encode", bytes(16))], [task("Bip39MnemonicDecoder", [L])],
+                      [task("Bip39MnemonicGenerator", [L], "FromEntropy", bytes(range(16)))]][rng.randrange(4)]
+            tasks, want = [], []
+            for i in range(16):
+                ent = b"\xff" * (16, 32)[i] if i < 2 else bytes(rng.randrange(256) for _ in range(rng.choice(SIZES)))
+                ws = spec_encode(lists[lang], ent)
+                s = " ".join(ws)
+                cs = len(ws) * 11 // 33
+                full = "%0*x" % ((len(ws) * 11 + 7) // 8 * 2, (int.from_bytes(ent, "big") << cs) | (hashlib.sha256(ent).digest()[0] >> (8 - cs)))
+                # auto-detection only in the runs that take the lists in detection order (each round then meets exactly one new list), and
+                # never where another list contains all the words (the answer is then the listed ambiguity, not this clause)
+                auto = run % 2 == 0 and i % 3 == 2 and sum(1 for l in BIP39_LANGS if all(w in lists[l] for w in set(ws))) == 1
+                lg = None if auto else L
+                k = i % 4
+                if k == 0 or i < 2:
+                    tasks.append(task("Bip39MnemonicDecoder", [lg], "Decode", s)); want.append(ent.hex())
+                elif k == 1:
+                    tasks.append(task("Bip39MnemonicDecoder", [lg], "DecodeWithChecksum", s)); want.append(full)
+                elif k == 2:
+                    tasks.append(task("Bip39MnemonicValidator", [lg], "IsValid", s)); want.append("True")
+                else:
+                    tasks.append(task("Bip39MnemonicDecoder", [lg], "Decode", respell(rng, ws))); want.append(ent.hex())
+            rounds.append({"before": before, "tasks": tasks, "stagger": rng.choice([0, 40, 150, 600])})
+            wants.append(want)
+        for lang, rnd, want, res in zip(order, rounds, wants, first_use_concurrently(rounds)):
+            for t, w, (got, detail) in zip(rnd["tasks"] + rnd["before"], want + ["no exception"] * len(rnd["before"]), res):
+                n += 1
+                if t["meth"] == "DecodeWithChecksum":       # entropy||checksum as a big-endian number (leading zero bytes are not the point)
+                    got, w = got.lstrip("0"), w.lstrip("0")
+                if got != w:
+                    rep("a valid %s sentence is not decoded to its entropy when %d threads use the word list for the first time at the same moment "
+                        "(fresh interpreter; %s(%s).%s)" % (lang, len(rnd["tasks"]), t["cls"], "language given" if t["ctor"][0] else "auto-detected", t["meth"]),
+                        t["arg"][1] if t["arg"] else "", (got + " " + detail).strip(), w)
+    return n
 
 
 def relations(rng, tier, rpt):
@@ -164,6 +367,10 @@ def relations(rng, tier, rpt):
             d["finding_id"] = fid
         bad.append(d)
 
+    from harness.props.accessors_common import generators_valid
+    for what, inp, got, want in generators_valid():      # random-entropy generators: right length, accepted by their own validator
+        if what.startswith("Bip39"):
+            rep(what, inp, got, want)
     n = 0
     for lang in BIP39_LANGS:
         words = words_of(lang)
@@ -207,6 +414,8 @@ def relations(rng, tier, rpt):
                 got = "DecodeWithChecksum differs"
             if got != want:
                 rep("%s on an object reused across languages departs from a fresh object (valid %s sentence)" % (what, lang.name), sent, got, want)
+    n += _observation_points(rng, tier, rep)
+    n += _first_use(rng, tier, rep)
     # the listed ambiguity witness
     e = bytes.fromhex(F_AUTODETECT)
     m = Bip39MnemonicEncoder(Bip39Languages.FRENCH).Encode(e).ToStr()
